@@ -173,7 +173,8 @@ def composition_records(ck, rnd, n):
 def kind_of(what):
     p = what.split(':')
     k = p[2] if p[0] == 'module' else ('pickle-elim' if 'then-pickle-elim' in what else p[0])
-    return 'eliminate_1to1_forks' if 'elim' in k else k
+    # (substitute() and resolve_tlib_cells() are one call site: resolve calls substitute for every library cell)
+    return 'eliminate_1to1_forks' if 'elim' in k else 'resolve' if k in ('resolve', 'substitute') else k
 
 
 def fixed_cases():
@@ -197,7 +198,24 @@ def fixed_cases():
         c2.eliminate_1to1_forks()
         return c2
     rec, _ = record(c, tf, lib, {'DFF_X1'}, 'module:NANGATE:elim:fixed-three-flip-flops')
-    return [rec]
+    # the same root cause through resolve_tlib_cells(): a cell with an empty implementation (filler) is removed, the last
+    # node (a flip-flop) takes its index
+    c2 = Circuit('fixed2')
+    a = Node(c2, 'a', 'input'); c2.io_nodes.append(a)
+    fa = Node(c2, 'a'); Line(c2, a, fa)
+    Node(c2, 'fill0', 'FILLCELL_X1')
+    u1 = Node(c2, 'u1', 'DFF_X1'); Line(c2, fa, (u1, 0))
+    q1 = Node(c2, 'q1'); Line(c2, (u1, 0), q1)
+    z = Node(c2, 'z', 'output'); c2.io_nodes.append(z); Line(c2, q1, z)
+    u2 = Node(c2, 'u2', 'DFF_X1'); Line(c2, q1, (u2, 0))
+    lib2 = nets.lib_structs(tlib, ['DFF_X1', 'FILLCELL_X1'])
+
+    def tf2(cc):
+        c3 = cc.copy()
+        c3.resolve_tlib_cells(tlib)
+        return c3
+    rec2, _ = record(c2, tf2, lib2, {'DFF_X1', 'FILLCELL_X1'}, 'module:NANGATE:resolve:fixed-filler-before-flip-flops')
+    return [rec, rec2]
 
 
 def judge(ck, recs):
